@@ -50,9 +50,14 @@ class Alg:
         c = f" contents={int(contents)}" if self.needs_contents else ""
         return f"{self.op} {self.param}={p[self.param]}{c} items={f_items(case['vals'], ids)}{self.req_extra(p)}"
 
-    def call_impl(self, case, fmt, outtype, names):
+    def call_impl(self, case, fmt, outtype, names, mutation=None):
+        """mutation: optional list; a description is appended when the call changed the object it was given"""
         p = case["p"]
         items, valueof = present(fmt, case["vals"], names)
+        if mutation is not None:
+            import copy
+            snap = list(items.items()) if isinstance(items, dict) else (items.copy() if isinstance(items, np.ndarray) else copy.deepcopy(items))
+            given = items
         ot = getattr(out, outtype)
         kw = dict(self.kwargs(p))
         if valueof is not None:
@@ -75,7 +80,14 @@ class Alg:
             else:
                 r = prtpy.pack(algorithm=self.fn(), binsize=p["B"], items=items, outputtype=ot, **kw)
         except Exception as e:       # noqa
-            return {"error": exc_name(e)}
+            r = e
+        if mutation is not None:
+            now = list(given.items()) if isinstance(given, dict) else given
+            same = (np.array_equal(now, snap) and now.dtype == snap.dtype) if isinstance(snap, np.ndarray) else (now == snap and type(now) == type(snap))
+            if not same:
+                mutation.append(f"the {fmt} argument was {snap!r} before the call and is {now!r} after it")
+        if isinstance(r, Exception):
+            return {"error": exc_name(r)}
         try:
             return canon_impl(r, outtype)
         except Exception as e:       # noqa  (e.g. output extraction from a malformed result)
@@ -161,11 +173,15 @@ def dp_relation(case, fmt, ot, got, model_ans, by_id):
 reg(Alg("dp", "partition", lambda: prt.dp,
         kwargs=lambda p: {"objective": objective_impl(p["obj"])}, req_extra=lambda p: f" obj={p['obj']}",
         relation=dp_relation))
+reg(Alg("ilp", "partition", lambda: prt.ilp, op="dp",
+        kwargs=lambda p: {"objective": objective_impl(p["obj"])}, req_extra=lambda p: f" obj={p['obj']}",
+        relation=dp_relation))      # solver trusted: the relation is "attains the verified optimum"; validity judged separately
 reg(Alg("cbldm", "partition", lambda: prt.cbldm, op="cbldm", param="k",
         kwargs=lambda p: {**({} if p.get("cut") is None else {"time_limit": p["cut"]}),
                           **({} if p.get("d") is None else {"partition_difference": p["d"]})},
         req_extra=lambda p: f" d={'inf' if p.get('d') is None else p['d']} cut={_cut(p)}",
-        pre=_install_clock("prtpy.partitioning.cbldm")))
+        pre=_install_clock("prtpy.partitioning.cbldm"),
+        unmodelled=lambda case, fmt: case["p"]["k"] != 2))      # argument validation is modelled separately (cbldm_validate, C19)
 
 reg(Alg("bin_completion", "pack", lambda: prtpy.packing.bin_completion,
         unmodelled=lambda case, fmt: fmt not in ("list", "array")))     # names != values: finding KF4
